@@ -296,7 +296,7 @@ impl World {
         }
         if let Some((bytes0, heads0)) = before {
             if self.docs[b].get_heads() != heads0 || self.docs[b].save() != bytes0 {
-                res.push(format!("! C22 read-only peer {} changed its document on receive from {}", b, a));
+                res.push(format!("! C22 sig=readonly-doc-changed read-only peer {} changed its document on receive from {}", b, a));
             }
         }
         true
@@ -341,7 +341,7 @@ impl World {
         res.push(format!("q rounds={} quiet={} heads={}", rounds, b01(quiet), heads.join(";")));
         // direct oracles
         if !quiet {
-            res.push(format!("! {} not quiet within {} rounds", self.prop(), bound));
+            res.push(format!("! {} sig=not-quiet not quiet within {} rounds", self.prop(), bound));
             return;
         }
         for a in 0..self.n {
@@ -354,11 +354,17 @@ impl World {
                 let missing: Vec<ChangeHash> = self.docs[a].get_heads().into_iter()
                     .filter(|h| self.docs[b].get_change_by_hash(h).is_none()).collect();
                 if !missing.is_empty() {
-                    res.push(format!("! {} quiescent but peer {} lacks changes of connected peer {} (heads {})", prop, b, a, hl(&missing)));
+                    // classify: the known finding S1 needs (i) the receiving state to have been read-only and
+                    // switched back, and (ii) a change b lacks to be a FORCED Bloom false positive
+                    let lacking_fp = self.docs[a].get_changes(&[]).iter().map(|c| c.hash())
+                        .filter(|h| self.docs[b].get_change_by_hash(h).is_none())
+                        .any(|h| FPSET.with(|s| s.borrow().contains(&h)));
+                    let sig = if prop == "C22" && self.was_ro.contains(&(b, a)) && lacking_fp { "switch-back-not-live" } else { "quiescent-not-converged" };
+                    res.push(format!("! {} sig={} quiescent but peer {} lacks changes of connected peer {} (heads {})", prop, sig, b, a, hl(&missing)));
                 } else if !send_ro && a < b {
                     let (ha, hb) = (self.docs[a].get_heads(), self.docs[b].get_heads());
                     if ha == hb && canon_doc(&self.docs[a]) != canon_doc(&self.docs[b]) {
-                        res.push(format!("! {} peers {} and {} have equal heads but different state", prop, a, b));
+                        res.push(format!("! {} sig=equal-heads-different-state peers {} and {} have equal heads but different state", prop, a, b));
                     }
                 }
             }
